@@ -28,27 +28,49 @@ unsigned long g_site_log;
 unsigned g_segs;
 unsigned long g_bits;
 
+/* try_deal (jobs C01.try_deal.*, VF_TRY_DEAL): the ticket is chosen by the function itself.  g_T is an arbitrary watched ticket, g_w / g_E its
+ * slot word and expected version, g_ni the ticket counter.  RELY': the version of the watched slot stays at g_E from the moment it
+ * shows g_E until the holder of ticket g_T publishes -- also while the ticket has not been handed out yet (counter <= g_T) --; other
+ * threads may take tickets (advance the counter) at any time. */
+unsigned long *g_ni; unsigned long g_T, g_last_idx, g_prev_idx, g_ver_obs_for; unsigned g_tickets, g_idx_loads; unsigned short g_ver_obs; _Bool g_ver_ok_at_take, g_took_T, g_cb_early;
 unsigned int nondet_u32(void);
 unsigned long nondet_u64(void);
 _Bool nondet_bool(void);
 unsigned short nondet_u16(void);
 
 #define VER(w) ((unsigned short)(w))
-static void vf_havoc_ghosts(void) { g_E = nondet_u16(); g_mine = nondet_bool(); g_published = 0; g_cb_runs = 0; g_debt = 0; g_wakes = 0; g_segs = 0; g_bits = nondet_u64(); }
+static void vf_havoc_ghosts(void) { g_E = nondet_u16(); g_mine = nondet_bool(); g_published = 0; g_cb_runs = 0; g_debt = 0; g_wakes = 0; g_segs = 0; g_bits = nondet_u64();
+  g_T = nondet_u64(); g_last_idx = g_prev_idx = g_ver_obs_for = 0; g_tickets = g_idx_loads = 0; g_ver_obs = 0; g_ver_ok_at_take = 0; g_took_T = 0; g_cb_early = 0; g_ni = 0; }
 
 /* the environment: any step allowed by RELY on the focus word */
 static void env_step(void) {
   unsigned int old = *g_w;
   unsigned int nw = nondet_u32();
+#ifdef VF_TRY_DEAL
+  __CPROVER_assume(!((g_mine || *g_ni <= g_T) && !g_published && VER(old) == g_E) || VER(nw) == g_E);
+#else
   __CPROVER_assume(!(g_mine && !g_published && VER(old) == g_E) || VER(nw) == g_E);
+#endif
   *g_w = nw;
 }
+#ifdef VF_TRY_DEAL
+static void env_idx(void) {     /* other threads take tickets */
+  unsigned long k = nondet_u64(); __CPROVER_assume(k < (1UL << 20) && *g_ni < (1UL << 60)); *g_ni += k;
+}
+#endif
 
 #define ORDER_AT_LEAST_ACQUIRE(o) ((o) == 2 || (o) == 4 || (o) == 5)
 #define ORDER_AT_LEAST_RELEASE(o) ((o) == 3 || (o) == 4 || (o) == 5)
 
 /* ---- atomic stubs (bodies) --------------------------------------------------------------------------- */
 unsigned int vf_atomic_load_u32(unsigned int *p, int order, int site) {
+#ifdef VF_TRY_DEAL
+  env_idx();
+  if (site == SITE_Q_SlotFutex_version_futex_value_load_1) __CPROVER_assert(ORDER_AT_LEAST_ACQUIRE(order), "K6 C01.try_deal the slot version is read with acquire");
+  if (p == g_w) { env_step(); g_ver_obs = VER(*p); g_ver_obs_for = g_last_idx; return *p; }
+  if (g_last_idx == g_T) g_ver_obs_for = g_T + 1;      /* (a version read of another slot says nothing about ticket g_T) */
+  return *p;
+#endif
   if (p == g_w) env_step();
   if (site == SITE_Q_SlotFutex_wait_until_reach_expected_version_1_futex_value_load_1)
     __CPROVER_assert(ORDER_AT_LEAST_ACQUIRE(order) || order == 0, "K6 C01.deal.wait order is acquire (single) or relaxed+fence (batch)");
@@ -58,6 +80,9 @@ unsigned int vf_atomic_exchange_u32(unsigned int *p, unsigned int v, int order, 
   if (p == g_w) env_step();
   unsigned int old = *p;
   *p = v;
+#ifdef VF_TRY_DEAL
+  if (p == g_w && !g_mine) return old;     /* this thread holds another ticket of the same slot (a different round): not the watched turn */
+#endif
   if (p == g_w) {
     /* K5: I advance the version only on my turn, by exactly one, once */
     __CPROVER_assert(g_mine && !g_published, "K5 C01.publish only by the ticket holder, once");
@@ -85,6 +110,22 @@ _Bool vf_atomic_compare_exchange_strong_u32(unsigned int *p, unsigned int *expec
   *expected = *p;
   return 0;
 }
+#ifdef VF_TRY_DEAL
+unsigned long vf_atomic_load_u64(unsigned long *p, int order, int site) {
+  if (p == g_ni) { env_idx(); env_step(); g_prev_idx = g_last_idx; g_last_idx = *p; if (g_idx_loads < 1000000) g_idx_loads++; }
+  return *p;
+}
+_Bool vf_atomic_compare_exchange_weak_u64(unsigned long *p, unsigned long *expected, unsigned long desired, int success, int failure, int site) {
+  __CPROVER_assert(p == g_ni, "C01.try_deal the only 64-bit CAS is on the ticket counter");
+  env_idx(); env_step();
+  if (*p != *expected || nondet_bool()) { if (*p != *expected) { *expected = *p; } g_prev_idx = g_last_idx; g_last_idx = *expected; return 0; }
+  __CPROVER_assert(desired == *expected + 1, "K5 C01.try_deal takes exactly one ticket, the one it examined");
+  __CPROVER_assume(g_tickets < 1000); g_tickets++;
+  if (*expected == g_T) { g_mine = 1; g_took_T = 1; g_ver_ok_at_take = (g_ver_obs == g_E && g_ver_obs_for == g_T); }
+  *p = desired;
+  return 1;
+}
+#else
 unsigned long vf_atomic_load_u64(unsigned long *p, int order, int site) { return *p; }
 _Bool vf_atomic_compare_exchange_weak_u64(unsigned long *p, unsigned long *expected, unsigned long desired, int success, int failure, int site) {
   if (nondet_bool()) return 0;   /* weak CAS may fail spuriously */
@@ -92,6 +133,7 @@ _Bool vf_atomic_compare_exchange_weak_u64(unsigned long *p, unsigned long *expec
   *expected = *p;
   return 0;
 }
+#endif
 
 /* ---- scheduling interface S (declared-only in the driver): arbitrary implementation under this contract ---- */
 int Sched_futex_wake_all(uint32_t *f) { if (f == g_w) { g_debt = 0; g_wakes++; } return nondet_u32(); }
@@ -116,6 +158,12 @@ int *vf_errno_location(void) { return &vf_errno_storage; }
 
 /* ---- the user callback: runs with exclusive access to its element ---------------------------------------- */
 void Cb_op_call(struct Cb *self, uint64_t *value) {
+#ifdef VF_TRY_DEAL
+  g_cb_runs++;
+  if (g_tickets == 0) g_cb_early = 1;      /* the callback must not run before this thread owns a ticket */
+  if (!g_mine) return;        /* another ticket than the watched one: only the counts are claimed */
+  g_cb_runs--;
+#endif
   env_step();
   /* K5 exclusive access: while the callback runs the slot still shows my expected version, i.e. nobody else's turn */
   __CPROVER_assert(g_mine && !g_published && VER(*g_w) == g_E, "K5 C01.callback runs on my turn with the version still at expected");
@@ -200,6 +248,37 @@ void Q_deal__1_1_1_CbRef(Q_t *q, struct Cb *cb, unsigned long index)
 DEAL_CONTRACT((unsigned short)((index >> g_bits) << 1));
 void Q_deal__1_1_0_CbRef(Q_t *q, struct Cb *cb, unsigned long index)
 DEAL_CONTRACT((unsigned short)(((index >> g_bits) << 1) + 1));
+
+/* try_deal<CONCURRENT, USE_FUTEX_WAKE, PUSH>(callback): the non-blocking variant behind try_push / try_pop.
+ *   true  : exactly one ticket was taken, by a CAS index -> index+1 on the counter; the callback ran exactly once; and if the ticket
+ *           is the watched one, its slot had been seen at the ticket's expected version (acquire) for that very index before the
+ *           ticket was taken, the callback ran on that turn with the version still there, and the version was published once;
+ *   false : no ticket taken, callback not run, nothing published -- and the decision rests on a consistent snapshot: the counter
+ *           read the same value before and after the version read, and (watched ticket) that version was not the expected one:
+ *           "try_ fails only when the slot of the next ticket is not ready". */
+#define TRY_CONTRACT(EXPR_E, COUNTER) \
+__CPROVER_requires(QSHAPE(q) && __CPROVER_is_fresh(cb, 1) && g_T < (1UL << 59) && (q)->COUNTER < (1UL << 59)) \
+__CPROVER_requires(__CPROVER_pointer_equals(g_w, &q->_slots._slots[g_T & q->_slot_mask].futex._futex._value) && __CPROVER_pointer_equals(g_ni, &q->COUNTER) && g_E == (EXPR_E)) \
+__CPROVER_requires(!g_mine && !g_published && !g_debt && g_cb_runs == 0 && g_tickets == 0 && g_idx_loads == 0 && !g_took_T) \
+__CPROVER_assigns(*g_w, *g_ni, __CPROVER_object_whole((q)->_slots._slots), g_mine, g_published, g_debt, g_wakes, g_cb_runs, g_tickets, g_idx_loads, g_last_idx, g_prev_idx, g_ver_obs, g_ver_obs_for, g_ver_ok_at_take, g_took_T, g_cb_early) \
+__CPROVER_ensures(!g_cb_early) \
+__CPROVER_ensures(__CPROVER_return_value ==> (g_tickets == 1 && g_cb_runs == 1 && !g_debt)) \
+__CPROVER_ensures((__CPROVER_return_value && g_took_T) ==> (g_ver_ok_at_take && g_published)) \
+__CPROVER_ensures(!__CPROVER_return_value ==> (g_tickets == 0 && g_cb_runs == 0 && !g_published && !g_took_T && g_idx_loads >= 2 && g_prev_idx == g_last_idx)) \
+__CPROVER_ensures((!__CPROVER_return_value && g_last_idx == g_T) ==> (g_ver_obs_for == g_T && g_ver_obs != g_E))
+
+_Bool Q_try_deal__1_1_1_CbRef(Q_t *q, struct Cb *cb)
+TRY_CONTRACT((unsigned short)((g_T >> g_bits) << 1), _next_push_index);
+_Bool Q_try_deal__1_1_0_CbRef(Q_t *q, struct Cb *cb)
+TRY_CONTRACT((unsigned short)(((g_T >> g_bits) << 1) + 1), _next_pop_index);
+//@loop Q_try_deal__1_1_1_CbRef 1
+//@  __CPROVER_assigns(@l2:index@, *g_w, *g_ni, __CPROVER_object_whole(self->_slots._slots), g_idx_loads, g_last_idx, g_prev_idx, g_ver_obs, g_ver_obs_for, g_tickets, g_mine, g_took_T, g_ver_ok_at_take, g_cb_runs, g_published, g_debt, g_wakes, g_cb_early)
+//@  __CPROVER_loop_invariant(!g_cb_early && !g_mine && !g_took_T && !g_published && !g_debt && g_cb_runs == 0 && g_tickets == 0 && g_idx_loads >= 1 && @l2:index@ == g_last_idx && *g_ni < (1UL << 60) + (1UL << 21))
+//@end
+//@loop Q_try_deal__1_1_0_CbRef 1
+//@  __CPROVER_assigns(@l2:index@, *g_w, *g_ni, __CPROVER_object_whole(self->_slots._slots), g_idx_loads, g_last_idx, g_prev_idx, g_ver_obs, g_ver_obs_for, g_tickets, g_mine, g_took_T, g_ver_ok_at_take, g_cb_runs, g_published, g_debt, g_wakes, g_cb_early)
+//@  __CPROVER_loop_invariant(!g_cb_early && !g_mine && !g_took_T && !g_published && !g_debt && g_cb_runs == 0 && g_tickets == 0 && g_idx_loads >= 1 && @l2:index@ == g_last_idx && *g_ni < (1UL << 60) + (1UL << 21))
+//@end
 
 /* wait_until_reach_expected_version<true>(expected, timeout=nullptr, order): returns only with the version at expected.
  * (contract used when verifying deal; discharged on the real wait loop in job C02.wait) */
